@@ -1,5 +1,8 @@
 #![forbid(unsafe_code)]
 
+#[cfg(huginn_net_verif_sched)]
+use huginn_net_verif_rt::std;
+
 pub use huginn_net_db as db;
 pub use huginn_net_db::http;
 
